@@ -21,7 +21,7 @@ Inductive act :=
 | ACloseHist.        (* deferred Close with compaction (:124-128) *)
 
 Record env := {
-  e_admit : bool;      (* the graph is admitted (C14) *)
+  e_gaccept : bool;      (* the graph is accepted (C14) *)
   e_has_pre : bool;    (* the DAG has preconditions *)
   e_pre_ok : bool;     (* ... and they are met *)
   e_dry : bool;
@@ -31,7 +31,7 @@ Record env := {
   e_bind_ok : bool }.
 
 Definition run (e : env) : list act * bool (* true = Run returned an error before/without scheduling *) :=
-  if negb (e_admit e) then ([ABuildGraph], true) else
+  if negb (e_gaccept e) then ([ABuildGraph], true) else
   let pre := if e_has_pre e then [AEvalPre] else [] in
   if e_has_pre e && negb (e_pre_ok e) then (ABuildGraph :: pre ++ [ACancelAll], true) else
   if e_dry e then (ABuildGraph :: pre ++ [ADrySchedule], false) else
